@@ -221,7 +221,7 @@ const prelude = `(declare-datatypes ((Slice 0)) (((mk-slice (s-base Int) (s-off 
 (declare-fun strat (Str (_ BitVec 64)) (_ BitVec 8))
 (declare-fun str_empty () Str)
 (assert (= (strlen str_empty) (_ bv0 64)))
-(assert (forall ((s Str)) (! (and (bvsle (_ bv0 64) (strlen s)) (bvsle (strlen s) (_ bv281474976710656 64))) :pattern ((strlen s)))))
+(assert (forall ((s Str)) (! (and (bvsle (_ bv0 64) (strlen s)) (bvsle (strlen s) (_ bv281474976710656 64)) (=> (= (strlen s) (_ bv0 64)) (= s str_empty))) :pattern ((strlen s)))))
 `
 
 func (s *Script) header() string {
